@@ -77,7 +77,7 @@ func (vin) Size() (int, int)   { return 120, 25 }
 
 type vout struct{ io.Writer }
 
-func (vout) Size() (int, int)  { return 120, 25 }
+func (vout) Size() (int, int) { return 120, 25 }
 func (vout) IsTerminal() bool { return false }
 
 type vos struct {
@@ -87,7 +87,9 @@ type vos struct {
 	fsys           fs.FS
 }
 
-func (o *vos) Platform() interp.Platform { return interp.Platform{OS: "vos", Arch: "varch", GoVersion: "vgo"} }
+func (o *vos) Platform() interp.Platform {
+	return interp.Platform{OS: "vos", Arch: "varch", GoVersion: "vgo"}
+}
 func (o *vos) Stdin() interp.Input {
 	s := ""
 	if o.stdin != nil {
@@ -136,18 +138,19 @@ func runMain(fsys fs.FS, argv []string, stdin *string) result {
 // ---- fixtures: the file universe of CLI.tla (KindContent / FileKind / RawFileContent / ProgFileTag)
 
 var fixtureFiles = map[string]string{
-	"a.json":  "1\n",
-	"b.json":  "\"s\"\n",
-	"c.json":  "[1,2]\n",
-	"o.json":  "{\"a\":\"x\"}\n",
-	"t.json":  "7",
-	"bad.bin": "garbage\n",
-	"raw.txt": "raw\n",
-	"id.jq":   ".\n",
-	"fail.jq": ".+1\n",
+	"a.json":    "1\n",
+	"b.json":    "\"s\"\n",
+	"c.json":    "[1,2]\n",
+	"o.json":    "{\"a\":\"x\"}\n",
+	"t.json":    "7",
+	"bad.bin":   "garbage\n",
+	"empty.txt": "",
+	"raw.txt":   "raw\n",
+	"id.jq":     ".\n",
+	"fail.jq":   ".+1\n",
 }
 var fixtureDirs = []string{"dir"}
-var kindFile = map[string]string{"A": "a.json", "B": "b.json", "C": "c.json", "O": "o.json", "T": "t.json", "U": "bad.bin", "D": "dir", "M": "missing"}
+var kindFile = map[string]string{"A": "a.json", "B": "b.json", "C": "c.json", "O": "o.json", "T": "t.json", "U": "bad.bin", "E": "empty.txt", "D": "dir", "M": "missing"}
 
 func fixtureFS() memFS { return mkfs(fixtureFiles, fixtureDirs) }
 
@@ -184,6 +187,7 @@ type e2eCase struct {
 	Toks  []tok  `json:"toks"`
 	Fidx  []int  `json:"fidx"` // 1-based indices of the tokens that are input files
 	Stdin string `json:"stdin"`
+	Solo  bool   `json:"solo"` // also run every input file alone (cases where independence applies)
 }
 
 type soloRes struct {
@@ -228,6 +232,9 @@ func runE2E(c e2eCase, cache *soloCache) e2eEvent {
 		isFile[k] = true
 	}
 	for _, k := range c.Fidx {
+		if !c.Solo {
+			break
+		}
 		var sargv []string
 		for i, a := range argv {
 			if isFile[i+1] && i+1 != k {
